@@ -55,7 +55,8 @@ func init() {
 	newGoConstructor2(`Integer`,
 		func(t px.LocalTypes) {
 			t.Type(`Radix`, `Variant[Default, Integer[2,2], Integer[8,8], Integer[10,10], Integer[16,16]]`)
-			t.Type(`Convertible`, `Variant[Numeric, Boolean, Pattern[/`+IntegerPattern+`/], Timespan, Timestamp]`)
+			// digits of radix 16 need no prefix when the radix is given
+			t.Type(`Convertible`, `Variant[Numeric, Boolean, Pattern[/`+IntegerPattern+`/, /\A[+-]?[0-9A-Fa-f]+\z/], Timespan, Timestamp]`)
 			t.Type(`NamedArgs`, `Struct[{from => Convertible, Optional[radix] => Radix, Optional[abs] => Boolean}]`)
 		},
 
